@@ -74,7 +74,9 @@ impl WorkerState {
     pub(crate) fn remaining_time(&self) -> Option<Duration> {
         if let Some(limit) = self.configuration.time_limit {
             let life_time = Instant::now() - self.start_time;
-            Some(limit - life_time)
+            // The timer that stops the worker is started after `start_time` is taken, so a
+            // message can still be processed shortly after the limit has passed
+            Some(limit.saturating_sub(life_time))
         } else {
             None
         }
